@@ -192,11 +192,32 @@ func analyse(v any, stack []byte) *crash {
 	if c.fatal {
 		c.kind = "fatal"
 	}
-	// cut at the harness
+	// A frame belongs to the harness when its source file does (closures of repository functions
+	// inlined into a test keep the test's function-name prefix but the repository's file).
+	isHarnessFrame := func(f frame) bool {
+		if strings.HasPrefix(f.fn, "testing.") || strings.HasPrefix(f.fn, "pgregory.net/") {
+			return true
+		}
+		return strings.Contains(f.where, "/props/c15/") || strings.Contains(f.where, "/verif/harness/")
+	}
 	for i, f := range fr {
-		if strings.HasPrefix(f.fn, "verifharness/") || strings.HasPrefix(f.fn, "testing.") || strings.HasPrefix(f.fn, "pgregory.net/") {
+		if isHarnessFrame(f) {
 			fr = fr[:i]
 			break
+		}
+	}
+	// repair the names of inlined repository closures
+	for i, f := range fr {
+		if strings.HasPrefix(f.fn, "verifharness/") {
+			name := reInlinedPrefix.ReplaceAllString(f.fn, "")
+			dir := f.where
+			if j := strings.LastIndex(dir, "/"); j > 0 {
+				dir = dir[:j]
+			}
+			if j := strings.LastIndex(dir, "/"); j >= 0 {
+				dir = dir[j+1:]
+			}
+			fr[i].fn = quaiPrefix + dir + "." + name
 		}
 	}
 	c.frames = fr
@@ -224,6 +245,8 @@ func analyse(v any, stack []byte) *crash {
 	}
 	return c
 }
+
+var reInlinedPrefix = regexp.MustCompile(`^verifharness/props/c15\.[A-Za-z0-9_]+\.`)
 
 func (c *crash) top(n int) []string {
 	var out []string
